@@ -9,7 +9,10 @@ which a Location tree is built and navigated:
   LocationMaker.walk                the order of the cases of `match schema`; per case the start handed to the recursive
                                     walk, the arguments of the Location constructor, where the item count comes from,
                                     how the running offset of an object advances, the aggregate over the alternatives
-                                    of a oneOf, the end a $ref placeholder gets, the two $anchor registrations
+                                    of a oneOf, the end a $ref placeholder gets, the two $anchor registrations; in the
+                                    DependsOnArraySchema case the two guards  if not hasattr(self, 'instance'): raise ValueError
+                                    and  if <item count> < 0: raise ValueError  (present / absent; odo_requires_instance,
+                                    odo_negative_refused; any other test there: Unrecognised)
   from_instance / from_schema       the default start and the start handed to walk
   NDNav.name / index / raw          .referent, the comparisons that refuse an index (with item_count, with a constant), the start
                                     of the re-walk, the slice
@@ -432,6 +435,22 @@ class ArrayBlock(Block):
                 self.fail("the instance check does not come first")
             self.flags.add("requires-instance")
             return
+        # if <the item count> < 0: raise ValueError(...)   - after the count has been read from the instance, before the items
+        # are walked (fix: a negative OCCURS DEPENDING ON counter is refused).  Nothing but this comparison with this constant is
+        # recognised: any other test on the count leaves the extractor (Unrecognised -> the pinned file).
+        if isinstance(st, ast.If) and not st.orelse and isinstance(st.test, ast.Compare) and len(st.test.ops) == 1 \
+                and isinstance(st.test.ops[0], ast.Lt) and len(st.test.comparators) == 1 \
+                and isinstance(st.test.comparators[0], ast.Constant) and type(st.test.comparators[0].value) is int \
+                and st.test.comparators[0].value == 0 and isinstance(st.test.left, ast.Name) \
+                and self.env.get(st.test.left.id) == I(pvar("VCount")) and _raises(st.body, "ValueError"):
+            if self.count_src != "CsAnchorValue":
+                self.fail("a sign test on a count that is not read from the instance")
+            if self.walks or self.ctor is not None:
+                self.fail("the sign test on the count does not come before the walk of the items")
+            if "negative-refused" in self.flags:
+                self.fail("two sign tests on the count")
+            self.flags.add("negative-refused")
+            return
         Block.special(self, st)
 
 
@@ -803,11 +822,14 @@ def _walk(cl, loc_params, P):
             if tag == "CArray":
                 if "requires-instance" in b.flags:
                     raise Unrecognised(f"{where}: instance check in the plain array case")
+                if "negative-refused" in b.flags:
+                    raise Unrecognised(f"{where}: sign test on the count in the plain array case")
                 P["arr_asserts_bound"] = "asserts" in b.flags
             else:
                 if "asserts" in b.flags:
                     raise Unrecognised(f"{where}: assert in the depends-on case")
                 P["odo_requires_instance"] = "requires-instance" in b.flags
+                P["odo_negative_refused"] = "negative-refused" in b.flags
         elif tag == "CObject":
             if b.obj is None or b.walks or b.agg or b.count_src:
                 raise Unrecognised(f"{where}: expected one loop over the properties")
@@ -1306,6 +1328,8 @@ def gen_LayoutParams(src):
         + e("arr_item_start") + e("arr_item_size") + e("arr_item_count") + e("arr_start") + e("arr_end")
         + "(* case DependsOnArraySchema(): the same, after  if not hasattr(self, 'instance'): raise ValueError *)\n"
         + d("odo_requires_instance", "bool", Bo(P["odo_requires_instance"]))
+        + "(* ... and, once the item count has been read from the instance:  if <count> < 0: raise ValueError  (before the items are walked) *)\n"
+        + d("odo_negative_refused", "bool", Bo(P["odo_negative_refused"]))
         + d("odo_count_src", "count_src", P["odo_count_src"])
         + e("odo_item_start") + e("odo_item_size") + e("odo_item_count") + e("odo_start") + e("odo_end")
         + "(* case ObjectSchema(): offset = <first_offset>; per property: walk(property_schema, <child_start>), offset = <step>;\n"
